@@ -1,1 +1,59 @@
-From WT Require Import Base.Wrap.
+(** * C13 — Exclusive access: sessions on one file are serialized across handles (PARTIAL).
+    The protocol of whisper.go (Open = flock(LOCK_EX) then read the header; Sync = flush;
+    Close = release; a failed Open closes the descriptor) is a small-step system over an abstract
+    disk [D] and handle state [H].  Assumed, not modelled: the kernel grants flock(LOCK_EX) to one
+    open file description at a time and releases it on close; goroutine scheduling; GC finalisers. *)
+From Coq Require Import List ZArith Lia.
+Import ListNotations.
+From WT Require Import Model.Lock Proofs.LockProofs.
+
+Section C13.
+Variables D H : Type.
+Variable load : D -> option H.
+Variable store : H -> D -> D.
+
+(** at most one handle at a time: a thread is between Open and Close iff it owns the lock *)
+Theorem C13_mutual_exclusion (s s' : sys D H) t :
+  excl D H s -> step D H load store s t = Some s' -> excl D H s'.
+Proof. exact (step_excl D H load store s s' t). Qed.
+
+(** every schedule of every set of sessions is equivalent to running the sessions one after the
+    other in the order in which they acquired the lock: no update is lost, and a session that opens
+    the file sees the state left by a whole number of earlier sessions *)
+Theorem C13_serializable sched (s : sys D H) acq d0 :
+  excl D H s -> pending D H store s = sessions_of D H load store acq d0 ->
+  let '(s', acq') := run_acq D H load store s acq sched in
+  excl D H s' /\ pending D H store s' = sessions_of D H load store acq' d0.
+Proof. exact (run_serializable D H load store sched s acq d0). Qed.
+
+Theorem C13_disk_between_sessions sched (s : sys D H) d0 :
+  excl D H s -> lock D H s = None -> disk D H s = d0 ->
+  let '(s', acq') := run_acq D H load store s [] sched in
+  lock D H s' = None -> disk D H s' = sessions_of D H load store acq' d0.
+Proof. exact (run_serializable_idle D H load store sched s d0). Qed.
+
+(** an Open that fails after the descriptor was obtained keeps the file neither open nor locked *)
+Theorem C13_failed_open_releases (s s' : sys D H) t prog :
+  nth_error (threads D H s) t = Some (Idle H prog) -> lock D H s = None -> load (disk D H s) = None ->
+  step D H load store s t = Some s' -> lock D H s' = None /\ disk D H s' = disk D H s.
+Proof. exact (failed_open_releases D H load store s s' t prog). Qed.
+End C13.
+Print Assumptions C13_mutual_exclusion.
+Print Assumptions C13_serializable.
+Print Assumptions C13_disk_between_sessions.
+Print Assumptions C13_failed_open_releases.
+
+(** no lost update, concretely: n concurrent open / add one / Sync / close sessions leave n,
+    for every schedule that lets them all finish *)
+Theorem C13_no_lost_update n sched :
+  let s' := run Z Z counter_load counter_store (mkSys Z Z 0%Z None (repeat (Idle Z counter_session) n)) sched in
+  idle_count Z (threads Z Z s') = 0 -> lock Z Z s' = None -> disk Z Z s' = Z.of_nat n.
+Proof. exact (counter_no_lost_update n sched). Qed.
+Print Assumptions C13_no_lost_update.
+
+(** the premises are satisfiable: three sessions under a round-robin schedule *)
+Example C13_example :
+  let s' := run Z Z counter_load counter_store (mkSys Z Z 0%Z None (repeat (Idle Z counter_session) 3))
+                (concat (repeat [0; 1; 2] 13)) in
+  idle_count Z (threads Z Z s') = 0 /\ lock Z Z s' = None /\ disk Z Z s' = 3%Z.
+Proof. vm_compute. repeat split. Qed.
